@@ -2172,29 +2172,32 @@ def eqn2_helpers(e, bitslice=False, widening=False):
             c[0 : e.size] = cst(0, e.size)
             c[i1 : i2 + 1] = e.l[i1 : i2 + 1]
             return c.simplify()
+        # if e:= (l [>> <<] r) with r >= size then e:= 0
+        elif e.op.symbol in (OP_LSL, OP_LSR) and e.r.v >= e.l.size:
+            return cst(0, e.size)
         elif bitslice and e.op.symbol in (OP_AND, OP_OR, OP_XOR):
             return composer(
                 [e.op(e.l[i : i + 1], e.r[i : i + 1]) for i in range(e.size)]
             )
         elif bitslice and e.op.symbol in (OP_LSL,):
             return composer(
-                [bit0] * e.r.value
-                + [e.l[i : i + 1] for i in range(0, e.size - e.r.value)]
+                [bit0] * e.r.v
+                + [e.l[i : i + 1] for i in range(0, e.size - e.r.v)]
             )
         elif bitslice and e.op.symbol in (OP_LSR,):
             return composer(
-                [e.l[i : i + 1] for i in range(e.r.value, e.size)] + [bit0] * e.r.value
+                [e.l[i : i + 1] for i in range(e.r.v, e.size)] + [bit0] * e.r.v
             )
         # if e:= (l [>> <<] r) then e:= l[i1:i2]
         elif e.op.symbol in (OP_LSL, OP_LSR):
             c = comp(e.l.size)
             c[0 : e.l.size] = cst(0, e.l.size)
             if e.op.symbol == OP_LSL:
-                l = e.l[0 : e.l.size - e.r.value]
-                c[e.r.value : e.l.size] = l
+                l = e.l[0 : e.l.size - e.r.v]
+                c[e.r.v : e.l.size] = l
             elif e.op.symbol == OP_LSR:
-                l = e.l[e.r.value : e.l.size]
-                c[0 : e.l.size - e.r.value] = l
+                l = e.l[e.r.v : e.l.size]
+                c[0 : e.l.size - e.r.v] = l
             return c.simplify()
         # if e:= ((a op b) e.op cst)
         if e.l._is_eqn:
